@@ -75,6 +75,34 @@ def resolve_history(seed, steps=14, solver=None, start=None):
     return g.text()
 
 
+def bound_move_history(seed):
+    """C05: after a solve, move single bounds (relax / tighten, both sides, through the single-bound and the list API) of every
+    column - in a boxed LP most of them are active at the optimum - read the accessors, re-solve, compare with a fresh copy"""
+    r = random.Random(seed)
+    lp = lpfam.feasible_bounded(r, r.randint(1, 4), r.randint(2, 5), kind=r.choice(["small", "frac"]))
+    solver = r.choice(SOLVERS)
+    out = ["scenario bmove_%s_%d" % (solver, seed), "handler on"] + lpfam.load_cmd(lp) + ["dump h0", solve_cmd("h0", solver), "sol h0"]
+    lo, up = list(lp["lo"]), list(lp["up"])
+    for step in range(r.randint(4, 10)):
+        j = r.randrange(lp["n"])
+        side = r.choice("LU")
+        d = F(r.choice([1, 2, 5, 1, 3]), r.choice([1, 1, 2]))
+        if side == "U":
+            new = up[j] + d if r.random() < .65 else max(lo[j], up[j] - d)
+            up[j] = new
+        else:
+            new = lo[j] - d if r.random() < .65 else min(up[j], lo[j] + d)
+            lo[j] = new
+        if r.random() < .75:
+            out.append("change_bound h0 %d %s %s" % (j, side, qstr(new)))
+        else:
+            out.append("change_bounds h0 1 %d %s %s" % (j, side, qstr(new)))
+        out += ["sol h0", "dump h0", "copy h1 h0 fresh", solve_cmd("h1", r.choice(["exact_primal", "exact_dual"])), "sol h1",
+                solve_cmd("h0", solver if r.random() < .7 else r.choice(SOLVERS)), "sol h0", raw(dict(call="eq_answer", h="h0", h2="h1", props=["C05"])), "free h1"]
+    out.append("free h0")
+    return "\n".join(out) + "\n"
+
+
 def two_handle_history(seed, steps=16):
     """C16: copy, then interleave edits / solves / frees on original and copy; after every action on one handle
     the other is observed (dump + sol) and must be unchanged."""
